@@ -21,7 +21,8 @@ RULE = (
 )
 ASSUMPTIONS = [
     "signals are one-dimensional (the deprecated axis argument is never passed)",
-    "magnitudes are chosen so that the float64 result fits the input dtype (|x| <= max/3 for integers with |coeff| <= 2, <= 1e4 for float16)",
+    "magnitudes are chosen so that the float64 result fits the input dtype (|x| <= max/3 for integers with |coeff| <= 2, <= 1e4 for float16); "
+    "int16 / int32 signals holding the most negative and most positive value of the dtype are generated too and kept when every value of the float64 recurrence fits the dtype",
     "Dither coefficients are >= 0 (it is a standard deviation; numpy rejects a negative scale)",
     "Dither is given int64 signals below 2**53 only (exactly representable in the documented float64 intermediate); Preemphasize also gets int64 beyond 2**53, judged against the float64 recurrence",
     "for non-float64 dtypes the dithered result may differ from cast(x + c*z) by one quantum of the dtype (the statement does not fix the rounding)",
@@ -39,7 +40,7 @@ DTYPES = {
 }
 # largest |x| generated: 3*|x| (|coeff| <= 2) and x + 600 (dither, coeff <= 100) must fit
 MAX_MAG = {"f8": 1e6, "f4": 1e6, "f2": 1e4, "i2": 10000, "i4": 7e8, "i8": 2.0 ** 61}
-KINDS = ["noise", "noise", "noise", "const", "impulse", "ramp", "alternating", "zeros"]
+KINDS = ["noise", "noise", "noise", "const", "impulse", "ramp", "alternating", "zeros", "extremes"]
 LAYOUTS = ["contig", "contig", "contig", "stride2", "reversed", "subclass"]
 
 
@@ -64,6 +65,16 @@ def _base_signal(n, dt, seed, magfrac, kind):
             v[int(rng.integers(0, n))] = mag
     elif kind == "ramp":
         v = np.linspace(-mag, mag, n) if n else np.zeros(0)
+    elif kind == "extremes" and dt in ("i2", "i4") and n:
+        # the ends of the integer range themselves: most negative value first, most positive last, zeros around them
+        # (cases whose recurrence leaves the range are discarded by the caller)
+        info = np.iinfo(dtype)
+        v = np.zeros(n, dtype=dtype)
+        v[-1] = info.max
+        v[0] = info.min
+        if n >= 5:
+            v[n // 2] = info.min if seed % 2 else info.max
+        return v
     elif kind == "alternating":
         v = mag * (1 - 2 * (np.arange(n) % 2))
     else:
@@ -126,6 +137,10 @@ def check_preemph(case):
     # reference: the recurrence in IEEE double, cast back
     xs = [float(v) for v in vals.tolist()]
     ys = [xs[i] if i == 0 else xs[i] - coeff * xs[i - 1] for i in range(n)]
+    if case["kind"] == "extremes" and dt.startswith("i"):
+        info = np.iinfo(DTYPES[dt])
+        if any(not (info.min <= int(v) <= info.max) for v in ys):
+            raise Discard()  # the float64 result does not fit the input dtype
     want = _cast_back(ys, dt)
     require(isinstance(out, np.ndarray), "apply returned {}", type(out).__name__)
     require(out.dtype == vals.dtype, "result dtype {} for input dtype {}", out.dtype, vals.dtype)
@@ -145,7 +160,7 @@ def check_preemph(case):
         # memory next to a strided view must never be touched
         if case["layout"] == "stride2":
             require(bool(np.all(owner[1::2] == 77)), "in_place call wrote outside the strided view it was given")
-    if case.get("reuse") and n <= 4096:
+    if case.get("reuse") and n <= 4096 and case["kind"] != "extremes":
         # the same pre-processor object is applied again (streaming chunks of equal size, feeding a result
         # back in): earlier results and the new input must stay what they were
         out_before = out.copy()
@@ -228,7 +243,9 @@ def check_dither(case):
     seed, seed2 = case["seed"], case["seed2"]
     # leaves room for 6.5 sigma of noise with coeff <= 100; int64 values stay below 2**53 so that the
     # float64 intermediate represents the signal exactly ("coeff 0 is the identity" is then well defined)
-    vals = _base_signal(n, dt, case["xseed"], case["magfrac"] * (0.85 if dt == "i8" else 0.9), case["kind"])
+    # (the ends of the integer range leave no room for noise: that signal kind is used with coeff 0 only - the identity)
+    kind = case["kind"] if (case["kind"] != "extremes" or c == 0.0) else "noise"
+    vals = _base_signal(n, dt, case["xseed"], case["magfrac"] * (0.85 if dt == "i8" else 0.9), kind)
     x, owner = _with_layout(vals, case["layout"])
     owner_before = owner.copy()
 
